@@ -1,10 +1,14 @@
 """C05 Internal queue limits (engine E1, exploration). See DESIGN.md section 7."""
+import random
+
+from ..core import derive_seed
+from ..e1 import CommandDriver
 from .common import generic_run, FinalDbMonitor, launched_instances
 
 PID = 'C05'
 ENGINE = 'E1'
 LEVEL = 'exploration'
-RULE = ("One case = generated workflow (wide fan-out) with 1-3 limited queues (limits 0-3, overlapping membership so that the last listing wins) + slow job submission + seeded schedule. After every release from the queues the set of preparing/submitted/running/awaiting-preparation members of each queue (recomputed from the real pool and the generator's own membership map) is compared with the limit; release order is compared with push order. Distinct = distinct (program, schedule digest); non-trivial = a queue limit was binding.")
+RULE = ("One case = generated workflow (wide fan-out) with 1-3 limited queues (limits 0-3, overlapping membership so that the last listing wins) + slow job submission + seeded schedule; in a third of the cases queued tasks are triggered by hand at seeded iterations (some in a paused workflow resumed in the same main-loop pass). After every release from the queues the set of preparing/submitted/running/awaiting-preparation members of each queue (recomputed from the real pool and the generator's own membership map) is compared with the limit (a manually triggered member counts: it may exceed the limit, a queue release on top of it may not); release order is compared with push order. Distinct = distinct (program, schedule digest); non-trivial = a queue limit was binding.")
 ASSUMPTIONS = [
     'jobs, polls, submissions, message transport and the clock are simulated',
     'reference model / invariants cover the generated workflow sub-language',
@@ -34,8 +38,70 @@ def prog_hook(prog, rng):
         prog.queues[f'q{i}'] = (rng.choice([0, 1, 1, 2, 2, 3]), members)
 
 
+class TrigQueued(CommandDriver):
+    """Triggers a task that is waiting in a queue (picked at injection time)."""
+
+    def __init__(self, schedule, manual):
+        super().__init__(schedule)
+        self.manual = manual
+        self.res = None
+
+    def attach(self, h, res, case):
+        self.res = res
+        super().attach(h, res, case)
+
+    def resolve(self, h, c):
+        if 'pick' not in c:
+            return c['kwargs']
+        prog = self.res.prog
+        cand = sorted(i.identity for i in h.schd.pool.get_tasks()
+                      if i.state.is_queued and not i.state.is_held
+                      and i.tdef.name in prog.tasks)
+        if not cand:
+            return None
+        ident = cand[int(c['pick'] * len(cand)) % len(cand)]
+        cyc, name = ident.split('/')
+        self.manual.add((name, prog.ppoint(cyc)))
+        self.res.sim.probe('queued_task_triggered')
+        kw = dict(c['kwargs'])
+        kw['tasks'] = [ident]
+        return kw
+
+
+def gen_cmds(seed):
+    r = random.Random(derive_seed(seed, 'c05-cmds'))
+    cmds = []
+    paused = r.random() < 0.4
+    it = r.randint(2, 20)
+    if paused:
+        cmds.append({'iter': max(1, it - r.randint(1, 3)), 'slot': 0,
+                     'name': 'pause', 'kwargs': {}})
+    for _ in range(r.randint(1, 3)):
+        cmds.append({'iter': it, 'slot': r.randint(0, 1),
+                     'name': 'force_trigger_tasks', 'pick': r.random(),
+                     'kwargs': {'flow': []}})
+        if paused and r.random() < 0.7:
+            # trigger and resume handled in the same main-loop pass
+            cmds.append({'iter': it, 'slot': 1, 'name': 'resume',
+                         'kwargs': {}})
+            paused = False
+        it += r.randint(0, 6)
+    if paused:
+        cmds.append({'iter': it + 1, 'slot': 0, 'name': 'resume',
+                     'kwargs': {}})
+    cmds.sort(key=lambda c: (c['iter'], c['slot']))
+    return cmds
+
+
 def run(params):
+    kw = {}
+    if params['seed'] % 3 == 0:
+        # a third of the cases: queued tasks are triggered by hand, some in
+        # a paused workflow that is resumed in the same pass
+        manual = set()
+        kw = {'manual': manual, 'commands': True,
+              'monitors': [TrigQueued(gen_cmds(params['seed']), manual)]}
     return generic_run(PID, params, knobs=KNOBS, policy='complete',
                        prog_hook=prog_hook, probe_key='queue_limit_binding',
                        world_cfg={'submit_lat': (0.0, 2.0, 5.0),
-                                  'tail_opts': (2.0, 5.0, 1.0, 9.0)})
+                                  'tail_opts': (2.0, 5.0, 1.0, 9.0)}, **kw)
